@@ -18,6 +18,7 @@ RULE = ("exhaustive: every tree with 2 and with 3 operator nodes over 14 binary 
         "minimally and fully parenthesised by the reference printer; random: full-grammar "
         "terms up to depth 7 (quick) / 10 (thorough) in min/full/random-paren renderings. "
         "distinct = distinct (term, rendering); non-trivial = term has >= 2 operator nodes")
+RULE += (" " + 'Also: chains of one operator to 257 (quick) and of recursion-limit-1 .. limit+200 operands checked iteratively; every 2-operator tree around big operands (in-lists 31..100 of 4 kinds, 40-digit integers, 3000-character strings, 128-character names); namespaced named-parameter names and lambda variables.')
 ASSUMPTIONS = ["reference printer + precedence table in vpmon/gen/terms.py are trusted",
                "documented deviations: singleton list '(x,)', `in` needs a list literal"]
 EXHAUSTIVE = "all operator pairs and triples (both renderings)"
